@@ -40,7 +40,7 @@ func leafOf(err error) int {
 func configEngine(w *run.Worker) {
 	ctx := context.Background()
 	const site = "NewBlobAccessFromConfiguration(sharding)"
-	w.Cases("config", w.N(320, 8000), func(c *run.Case) {
+	w.Cases("config", w.N(320, 6000), func(c *run.Case) {
 		r := caseRng(w, c)
 		n := r.Pick(1, 2, 3, 3, 4, 5, 6, 9)
 		var base []sharding.Shard
